@@ -26,8 +26,8 @@ ASSUMPTIONS = [
 FACETS = ('compile-failed', 'oid')
 
 
-def _profile():
-    return setcheck.profile_for(None, backends=('json', 'pysnmp'), dialects=('v2', 'v2', 'v1'), modules=(1, 3),
+def _profile(backends=('json', 'pysnmp')):
+    return setcheck.profile_for(None, backends=backends, dialects=('v2', 'v2', 'v1'), modules=(1, 3),
                                 decls=(2, 16), texts='short', skipblocks=False, defval=False,
                                 kinds=None)
 
@@ -35,6 +35,12 @@ def _profile():
 @st.composite
 def cases(draw):
     return {'mset': draw(mibgen.module_sets(_profile()))}
+
+
+@st.composite
+def json_cases(draw):
+    # JSON-only routes: the classes excluded for open findings of the pysnmp backend are generated here
+    return {'mset': draw(mibgen.module_sets(_profile(('json',))))}
 
 
 def prop(case, rec):
@@ -65,7 +71,7 @@ def prop(case, rec):
 
 @st.composite
 def compile_cases(draw):
-    c = draw(cases())
+    c = draw(json_cases())
     c['mode'] = draw(st.sampled_from(('all', 'all', 'top', 'top-noDeps')))
     return c
 
